@@ -257,6 +257,39 @@ def sweep(tier, seed, known=(), every_byte_for=()):
         for cnt, fl in ex.map(sweep_file, jobs):
             n += cnt
             fails.extend(fl)
+    # the same PATH parsed again after its content changed (a job run again in the same directory and killed): what is reported is what the file holds NOW
+    import logging
+    import warnings
+    logging.disable(logging.CRITICAL)
+    warnings.filterwarnings('ignore')
+    small = []
+    for p in sorted((p for p in files if os.path.getsize(p) < 600000), key=os.path.getsize):
+        try:
+            if full_reference(p)['images']:
+                small.append(p)            # a listing with at least one edition that parses
+        except Exception:      # noqa
+            pass
+        if len(small) >= 4:
+            break
+    pairs = [(small[i], small[j]) for i, j in ((1, 0), (0, 1), (2, 3))] if len(small) >= 4 else []
+    for first, second in pairs:
+        data2 = open(second, 'rb').read()
+        full2 = full_reference(second)
+        with tempfile.TemporaryDirectory(prefix='c11o_', dir='/var/tmp') as td:
+            shared = os.path.join(td, os.path.basename(second))
+            with open(shared, 'wb') as f:
+                f.write(open(first, 'rb').read())
+            try:
+                parse_all(shared)
+            except Exception:      # noqa
+                pass
+            for k in (len(data2), len(data2) // 2, 200, 0):
+                n += 1
+                probs = check_prefix(second, data2, k, full2, td, [5])
+                if probs:
+                    fails.append({'input': {'listing': os.path.relpath(second, repo_root()), 'cut_at_byte': k, 'last_line_kept': '',
+                                            'same_path_parsed_before_with': os.path.relpath(first, repo_root())},
+                                  'observed': probs[:3], 'expected': 'the results of the listing the path holds now (or ParserException)'})
     # one representative per class, smallest listing first
     classes = {}
     for f in sorted(fails, key=lambda f: (len(f['input']['listing']), f['input']['cut_at_byte'])):
@@ -272,7 +305,7 @@ def sweep(tier, seed, known=(), every_byte_for=()):
                      f'{200 if tier == "quick" else 2000} seeded random offsets per file + offsets 0, 1, n-1, n'
                      + (f'; EVERY byte offset of the {len(every_byte_for)} listings below 70 kB' if every_byte_for else '') + f'; {PER_PARSE_SECONDS} s limit per prefix; editions whose text block differs from the '
                      'complete listing are always parsed and compared, identical blocks are re-parsed for a sample; compared: every key of ParseResult.res except run_data and the elapsed_time of '
-                     'parallel jobs (printed after the edition)',
+                     'parallel jobs (printed after the edition); 3 pairs of listings written one after the other at the same path (complete, half, 200 bytes, empty)',
             'samples': [{'listing': 'tests/eponine/tripoli4/data/ttsSimplePacket20.d.res.ceav5', 'cut_at_byte': 1234}]}
 
 
